@@ -35,14 +35,14 @@ LABELS = ["find_turns", "4pt.cycles", "4pt.residual", "3pt.multiset", "3pt.resid
 
 
 def bounds(tier):
-    return {"signal_length": "2..%d" % (6 if tier == "quick" else 8), "detectors": list(C.DETECTORS)}
+    return {"signal_length": "2..%d" % (6 if tier == "quick" else 9), "detectors": list(C.DETECTORS)}
 
 
 prepare = C.prepare
 
 
 def cases(tier):
-    n = 6 if tier == "quick" else 8
+    n = 6 if tier == "quick" else 9
     out = []
     for det in C.DETECTORS:
         for m in range(2, n + 1):
